@@ -46,7 +46,18 @@ contract(FR, "replace_outer", {"from_": "ResolvedPos", "to": "ResolvedPos", "sli
          may_raise={"ReplaceError": "True"},
          trusted="C02 / C01 (bounded): the recursive rebuild along the two resolved positions; every node it builds around new content goes through close (proved above)",
          props=P)
-GUARD = "from_.pos > to.pos or slice.open_start > from_.depth or from_.depth - slice.open_start != to.depth - slice.open_end"
+SC = "slice.content.content"
+contract(FR, "open_depths_fit", {"slice": "Slice"}, returns="bool", ensures=["result == odfit(slice)"],
+         loops={0: dict(invariant=[
+                    "slice.open_start >= 0", "slice.open_end >= 0",
+                    f"node is None ==> fits_first({SC}, slice.open_start) == (slice.open_start - _ <= 0)",
+                    f"node is not None ==> fits_first({SC}, slice.open_start) == (slice.open_start - _ <= 0 or (not leaf_t(node.type) and fits_first(node.content.content, slice.open_start - _ - 1)))"]),
+                1: dict(invariant=[
+                    "slice.open_start >= 0", "slice.open_end >= 0", f"fits_first({SC}, slice.open_start)",
+                    f"node is None ==> fits_last({SC}, slice.open_end) == (slice.open_end - _ <= 0)",
+                    f"node is not None ==> fits_last({SC}, slice.open_end) == (slice.open_end - _ <= 0 or (not leaf_t(node.type) and fits_last(node.content.content, slice.open_end - _ - 1)))"])},
+         locals={"node": "opt[Node]"}, props=P + ["C02"])
+GUARD = "from_.pos > to.pos or not odfit(slice) or slice.open_start > from_.depth or from_.depth - slice.open_start != to.depth - slice.open_end"
 contract(FR, "replace", {"from_": "ResolvedPos", "to": "ResolvedPos", "slice": "Slice"}, returns="Node",
          raises={"ReplaceError": GUARD}, may_raise={"ReplaceError": "True"},
          props=P + ["C02"])
